@@ -9,6 +9,7 @@ CONSTANTS
   Layouts = {"gaps"}
   MultiPre = {"none"}
   MultiLayouts = {"gaps"}
+  MultiStrs = {3, 4, 7}
 INVARIANT ExtReadable
 INVARIANT ReaderBounded
 CONSTRAINT DumpConstraint
